@@ -11,6 +11,8 @@
 From Coq Require Import String Ascii List NArith ZArith Bool Arith Lia.
 From TV Require Import spec.Num model.Parser model.Parsita proofs.ParsitaFacts.
 From TV Require gen.GrammarGen gen.Deparse proofs.ParserLex proofs.ParserFuel proofs.GenGrammarFormat_equiv.
+From TV Require spec.Grammar proofs.ParserGrammar.
+From TV Require Import proofs.GenGrammarRegex.
 Import ListNotations.
 
 Module GG := TV.gen.GrammarGen.
@@ -630,27 +632,6 @@ Qed.
 (* ------------------------------------------------------------------------------------------ *)
 (** ** number = floating_point | integer *)
 
-(** the regular expression of [floating_point], as the translator reads it *)
-Definition DIG : regex := RSet [("0"%char, "9"%char)].
-Definition EXPO : regex :=
-  RSeq (RSet [("E"%char, "E"%char); ("e"%char, "e"%char)])
-    (RSeq (ROpt (RSet [("+"%char, "+"%char); ("-"%char, "-"%char)])) (RPlus DIG)).
-Definition FR : regex :=
-  RSeq (RPlus DIG)
-    (RAlt (RSeq (RSet [("."%char, "."%char)]) (RSeq (RPlus DIG) (ROpt EXPO)))
-          (RSeq (ROpt (RSeq (RSet [("."%char, "."%char)]) (RPlus DIG))) EXPO)).
-
-(** What is NOT proved here (tested by the self-check on every run): on a position that starts with a
-    digit, Python's backtracking match of the float regex ends where the model's number lexer ends a
-    float token, fails where the lexer reads an integer token, and the matched text read back alone
-    is that float token. *)
-Definition float_regex_spec : Prop :=
-  forall c r, is_digit c = true ->
-    match lex_number (c :: r) with
-    | (TFloat d, r') => re_match FR (c :: r) = Some r' /\ GG.spell_dec (consumed (c :: r) r') = Some d
-    | (_, _) => re_match FR (c :: r) = None
-    end.
-
 Lemma FR_no_digit : forall c r, is_digit c = false -> re_match FR (c :: r) = None.
 Proof.
   intros c r D. unfold re_match, FR, RPlus, DIG. rewrite !rm_seq, rm_set.
@@ -693,8 +674,6 @@ Proof.
       intros H. inversion H; subst. apply lex_exponent_head in LE. exact LE.
 Qed.
 
-Section Number.
-Hypothesis FRS : float_regex_spec.
 
 Lemma T_number : forall n s ts, LexR s ts ->
   tok_ok s ts (run GG.uval (S (S (S n))) EG (PRef "number") s) expect_number.
@@ -729,7 +708,7 @@ Proof.
     { cbn [alift1]. rewrite TV.proofs.GenGrammarFormat_equiv.py_int_digits; [reflexivity|discriminate|].
       subst ip. simpl. rewrite Hd. apply TV.proofs.GenGrammarFormat_equiv.take_while_forallb. }
     rewrite PI.
-    pose proof (FRS c0 r Hd) as FS. unfold lex_number_f in *.
+    pose proof (float_regex_ok c0 r Hd) as FS. unfold lex_number_f in *.
     destruct (lex_number (c0 :: r)) as [t r'] eqn:LN.
     pose proof (lex_number_tok (c0 :: r)) as TK. rewrite LN in TK. cbn [fst] in TK.
     destruct t; try contradiction.
@@ -909,5 +888,88 @@ Proof.
   - rewrite (LexR0_nil_inv s' H0 NS). reflexivity.
   - destruct s' as [|c' s'']; [exfalso; eapply LexR0_cons_inv; exact H0|]. reflexivity.
 Qed.
-End Number.
+
+(* ------------------------------------------------------------------------------------------ *)
+(** * Corollaries: against model/Parser.v itself, and the C12 theorems on the regenerated grammar *)
+
+Definition floats_finite (ts : list token) : bool :=
+  forallb (fun t => match t with TFloat d => fin d | _ => true end) ts.
+
+Lemma lexF_floats_finite : forall n s ts, lex_fuel n s = Some ts -> floats_finite ts = true ->
+  lexF n s = Some ts.
+Proof.
+  induction n as [|n IH]; intros s ts H FF; destruct s as [|c r]; try exact H.
+  cbn [lex_fuel] in H. cbn [lexF].
+  destruct (Ascii.eqb c " "); [apply IH; assumption|].
+  destruct (is_alpha c).
+  { destruct (take_while is_alnum (c :: r)) as [nm r'] eqn:TW. cbn [fst snd].
+    destruct (lex_fuel n r') as [l|] eqn:E; [|discriminate]. inversion H; subst.
+    simpl in FF. rewrite (IH r' l E FF). reflexivity. }
+  destruct (is_digit c); [|].
+  { destruct (lex_number (c :: r)) as [t r'] eqn:LN.
+    destruct (lex_fuel n r') as [l|] eqn:E; [|discriminate]. inversion H; subst.
+    simpl in FF. apply andb_true_iff in FF as [F1 F2].
+    unfold lex_number_f. rewrite LN. destruct t; cbn [fst snd]; try (rewrite (IH r' l E F2); reflexivity).
+    rewrite F1. cbn [fst snd]. rewrite (IH r' l E F2). reflexivity. }
+  destruct (lex_fuel n r) as [l|] eqn:E; [|discriminate]. inversion H; subst.
+  simpl in FF. apply andb_true_iff in FF as [F1 F2]. rewrite (IH r l E F2). reflexivity.
+Qed.
+
+(** the regenerated parser IS model/Parser.v's [parse_assignment] on every text whose float literals
+    are finite under float() *)
+Theorem gen_parse_assignment_equiv_model : forall (s : string) ts,
+  lex s = Some ts -> floats_finite ts = true ->
+  GG.parse_assignment fl post s = back_pres (Parser.parse_assignment s).
+Proof.
+  intros s ts L FF. rewrite gen_parse_assignment_equiv.
+  unfold parse_assignment_f, Parser.parse_assignment. unfold lex in L |- *.
+  rewrite (lexF_floats_finite _ _ _ L FF), L. reflexivity.
+Qed.
+
+Definition back_asg (a : assignment) : V :=
+  VU (GG.UAsg (GD.ExAssignment (GD.ExTensor (tname a) (tindexes a)) (back (rhs a)))).
+
+(** C12_parse_sound_complete on the regenerated grammar: it accepts exactly the texts whose tokens are
+    an assignment sentence of the textbook grammar (spec/Grammar.v) with a valid tree, and returns
+    that tree *)
+Theorem gen_parse_sound_complete : forall (s : string) v,
+  GG.parse_assignment fl post s = GG.PSuccess v <->
+  exists ts a, lexF (len (list_ascii_of_string s)) (list_ascii_of_string s) = Some ts
+               /\ TV.spec.Grammar.DA ts a /\ validate a = VOk /\ v = back_asg a.
+Proof.
+  intros s v. rewrite gen_parse_assignment_equiv. unfold parse_assignment_f.
+  pose proof (lexF_total (len (list_ascii_of_string s)) (list_ascii_of_string s) (Nat.le_refl _)) as TT.
+  destruct (lexF (len (list_ascii_of_string s)) (list_ascii_of_string s)) as [ts|]; [|congruence].
+  split.
+  - intros H. destruct (parse_tokens ts) as [a| | | | |] eqn:P; try discriminate.
+    apply TV.proofs.ParserGrammar.parse_tokens_iff_derives in P as [D Vd].
+    exists ts, a. cbn [back_pres] in H. inversion H. auto.
+  - intros (ts' & a & E & D & Vd & ->). inversion E; subst ts'.
+    rewrite (proj2 (TV.proofs.ParserGrammar.parse_tokens_iff_derives ts a) (conj D Vd)). reflexivity.
+Qed.
+
+(** C12_parse_deparse on the regenerated grammar: a text whose tokens are the printed tokens of a
+    valid tree parses to that tree *)
+Theorem gen_parse_deparse : forall (s : string) a,
+  lexF (len (list_ascii_of_string s)) (list_ascii_of_string s) = Some (deparse a) ->
+  validate a = VOk ->
+  GG.parse_assignment fl post s = GG.PSuccess (back_asg a).
+Proof.
+  intros s a L Vd. rewrite gen_parse_assignment_equiv. unfold parse_assignment_f. rewrite L.
+  rewrite (TV.proofs.ParserGrammar.parse_deparse a Vd). reflexivity.
+Qed.
+
+(** the regenerated parser never gets stuck, never runs out of fuel, and lets no exception escape *)
+Theorem gen_parse_assignment_total : forall s : string,
+  match GG.parse_assignment fl post s with
+  | GG.PSuccess _ | GG.PFailure _ => True
+  | _ => False
+  end.
+Proof.
+  intros s. rewrite gen_parse_assignment_equiv. unfold parse_assignment_f.
+  pose proof (lexF_total (len (list_ascii_of_string s)) (list_ascii_of_string s) (Nat.le_refl _)) as TT.
+  destruct (lexF (len (list_ascii_of_string s)) (list_ascii_of_string s)) as [ts|]; [|congruence].
+  pose proof (TV.proofs.ParserFuel.parse_tokens_fuel_sufficient ts) as NF.
+  destruct (parse_tokens ts); try exact I. congruence.
+Qed.
 End Expr.
